@@ -97,3 +97,42 @@ class FrameFit(Contract):
     canaries = {"a_successful_fit_leaves_the_instance_as_it_was": lambda E, a, res, old: z3.BoolVal(
         {k: v for k, v in a["self"].fields.items() if not k.startswith("$")}.keys() == old["fields"].keys()
         and all(a["self"].fields[k] is v for k, v in old["fields"].items()))}
+
+
+# ----------------------------------------------------------------------------------------------------------------------
+# frame of a QUERY (predict / transform / score ...): the estimator has exactly the attributes it had, each the same object.
+# A query that leaves anything behind (a cache, a memo, a "last input") makes later answers depend on the history of calls -
+# which the properties quantify over - and a refit cannot know it has to clear it.
+def fields_of(obj):
+    return {k: v for k, v in obj.fields.items() if not k.startswith("$")}
+
+
+def same_fields(obj, before):
+    now = fields_of(obj)
+    return z3.BoolVal(set(now) == set(before) and all(now[k] is before[k] or identical(now[k], before[k]) for k in now))
+
+
+def query_frame(*names):
+    """class decorator (below @contract): adds `<name>_left_as_it_was_nothing_kept_between_calls` for the named Obj parameters"""
+    def deco(cls):
+        o_old, o_ens = cls.old, cls.ensures
+
+        def old(self, E, a):
+            r = o_old(self, E, a)
+            snap = {n: fields_of(a[n]) for n in names if n in a and isinstance(a[n], Obj)}
+            if r is None:
+                r = {}
+            if isinstance(r, dict):
+                r = dict(r)
+                r["$query_frame"] = snap
+            return r
+
+        def ensures(self, E, a, res, old, *args, **kw):
+            out = o_ens(self, E, a, res, old, *args, **kw)
+            if not kw and not args and isinstance(out, dict) and isinstance(old, dict):
+                for n, before in old.get("$query_frame", {}).items():
+                    out["%s_left_as_it_was_nothing_kept_between_calls" % n] = same_fields(a[n], before)
+            return out
+        cls.old, cls.ensures = old, ensures
+        return cls
+    return deco
